@@ -126,7 +126,14 @@ func (m MapSchema[K, V]) Unserialize(data any) (any, error) {
 		if err != nil {
 			return nil, ConstraintErrorAddPathSegment(err, fmt.Sprintf("[%v]", k.Interface()))
 		}
-		result.SetMapIndex(reflect.ValueOf(unserializedKey), reflect.ValueOf(unserializedValue))
+		typedKey := reflect.ValueOf(unserializedKey)
+		if result.MapIndex(typedKey).IsValid() {
+			// Two raw keys (e.g. 1 and "1") denote the same key: which entry survives would depend on the iteration order.
+			return nil, ConstraintErrorAddPathSegment(&ConstraintError{
+				Message: fmt.Sprintf("Duplicate key %v after conversion", unserializedKey),
+			}, fmt.Sprintf("{%v}", k.Interface()))
+		}
+		result.SetMapIndex(typedKey, reflect.ValueOf(unserializedValue))
 	}
 	return result.Interface(), nil
 }
@@ -267,6 +274,11 @@ func (m MapSchema[K, V]) Serialize(data any) (any, error) {
 		serializedValue, err := m.ValuesValue.Serialize(iter.Value().Interface())
 		if err != nil {
 			return nil, ConstraintErrorAddPathSegment(err, fmt.Sprintf("[%v]", k))
+		}
+		if _, duplicate := result[serializedKey]; duplicate {
+			return nil, ConstraintErrorAddPathSegment(&ConstraintError{
+				Message: fmt.Sprintf("Duplicate key %v after conversion", serializedKey),
+			}, fmt.Sprintf("{%v}", k))
 		}
 		result[serializedKey] = serializedValue
 	}
